@@ -1426,7 +1426,7 @@ def run(rep, tier):
     # schedules chosen by the implementation itself (no model needed): random completions from the initial state
     free_cfg = [([0], [0], 20), ([1], [1], 20), ([0], [1, 0], 30), ([0, 1], [0], 30), ([1, 0], [1], 40), ([0, 0], [1, 0], 40), ([1, 0], [0, 0], 20)]
     if tier != "quick":
-        free_cfg = [(tm, wa, c * 12) for tm, wa, c in free_cfg] + [([0, 1, 0], [1, 0], 800), ([0, 0, 1], [0], 500)]
+        free_cfg = [(tm, wa, c * 5) for tm, wa, c in free_cfg] + [([0, 1, 0], [1, 0], 300), ([0, 0, 1], [0], 200)]
     for tm, wa, cnt in free_cfg:
         for _ in range(cnt):
             cases.append({"tmos": tm, "waits": wa, "sched": [], "free": r.randrange(1 << 30), "maximal": False, "family": f"impl-driven:{len(tm)}j{len(wa)}s"})
@@ -1444,7 +1444,7 @@ def run(rep, tier):
                 cases.append({"tmos": tm, "waits": wa, "sched": s, "maximal": True, "family": f"exh:{len(tm)}j{len(wa)}s"})
         # random deeper schedules
         rnd = [([0, 1], [0], 80, 3), ([0, 0], [1], 70, 3), ([1, 0], [0, 1], 60, 3), ([0], [1, 0], 30, 4), ([0, 1], [1, 0], 60, 3)] if tier == "quick" else \
-              [([0, 1], [0], 1500, 4), ([0, 0], [1], 1000, 4), ([1, 0], [0, 1], 1000, 4), ([0, 1], [1, 0], 1000, 4), ([0, 1, 0], [0], 1500, 3), ([0, 0, 1], [1], 1000, 3), ([0, 1, 0], [0, 1], 1000, 3)]
+              [([0, 1], [0], 700, 4), ([0, 0], [1], 500, 4), ([1, 0], [0, 1], 500, 4), ([0, 1], [1, 0], 500, 4), ([0, 1, 0], [0], 700, 3), ([0, 0, 1], [1], 500, 3), ([0, 1, 0], [0, 1], 500, 3)]
         for tm, wa, cnt, P_ in rnd:
             for s in random_schedules(exe, r, tm, wa, cnt, P_):
                 cases.append({"tmos": tm, "waits": wa, "sched": s, "maximal": True, "family": f"rnd:{len(tm)}j{len(wa)}s"})
@@ -1454,13 +1454,13 @@ def run(rep, tier):
     # ---------------- implementation (forced schedules) and model traces
     with Pool(min(16, os.cpu_count() or 4)) as pool:
         real_async = pool.map_async(real_low_level, [{"script": s, "timeout": t} for s, t, _, _ in REAL_CASES], chunksize=1)
-        nreal = 0 if tier == "quick" else 200
+        nreal = 0 if tier == "quick" else 120
         rand_async = pool.map_async(real_random_run, [r.randrange(1 << 30) for _ in range(nreal)], chunksize=1) if nreal else None
         real = real_async.get(600)
         rand_real = rand_async.get(1500) if rand_async else []
         ex_cfgs = [([0], [0], 1, 0), ([0], [1], 1, 0), ([1], [1], 0, 6), ([0], [1, 0], 1, 0), ([0, 0], [0], 0, 0)] if tier == "quick" else \
-                  [([0], [0], 2, 15), ([1], [1], 2, 15), ([0], [1, 0], 2, 0), ([1], [0, 0], 1, 4), ([0, 0], [0], 1, 0), ([0, 1], [1], 1, 4), ([0, 0], [1, 0], 0, 0)]
-        ex_cases, ex_res, ex_notes = explore_impl(pool, ex_cfgs, 300 if tier == "quick" else 6000)
+                  [([0], [0], 2, 15), ([1], [1], 2, 4), ([0], [1, 0], 1, 0), ([1], [0, 0], 1, 4), ([0, 0], [0], 1, 0), ([0, 1], [1], 0, 4)]
+        ex_cases, ex_res, ex_notes = explore_impl(pool, ex_cfgs, 300 if tier == "quick" else 1500)
         exhaustive_note += ex_notes
         impl = []
         nerr = 0
